@@ -303,7 +303,7 @@ Print corr_bad. Print prop_bad. Print refused. Print ncorr_bad. Print wiring_ok.
     if res["ncorr_bad"]:
         broken.append("correspondence: new_client_limiter differs from collector.NewClient on %s"
                       % [(newclient[k], obs["newclient"][k]) for k in res["ncorr_bad"][:5]])
-    if broken and not chk.violations and not chk.known_hits:
+    if broken and not chk.violations:
         chk.fail("broken.txt", "\n\n".join(broken), no_input=True)
     chk.assumptions += ["Go channel / select / defer semantics as modelled in Limiter.lstep",
                         "the harness log (one mutex) is a linearisation: inner-start is logged after the permit was taken, "
